@@ -99,19 +99,33 @@ class source_only_slices:
     ret = TList(RawFileSlice)
     ghost_out = {}
 
+    def requires(self):
+        return raw_tiled(self.raw_sliced)
+
     def ensures(self, result):
         return (
             # every returned slice is a raw slice of the file and is not literal
-            all(any(result[b] == self.raw_sliced[k] for k in range(len(self.raw_sliced))) and result[b].slice_type != "literal"
+            all(any(result[b] == self.raw_sliced[k] for k in range(len(self.raw_sliced)))
+                and result[b].slice_type in ("comment", "block_end", "block_start", "block_mid") and result[b].slice_type != "literal"
                 for b in range(len(result)))
+            # in file order, without overlap ("The results are NECESSARILY sorted")
+            and all(result[b].source_idx + len(result[b].raw) <= result[c].source_idx
+                    for b in range(len(result)) for c in range(b + 1, len(result)))
             # every comment / block tag slice is returned
             and all(implies(self.raw_sliced[k].slice_type in ("comment", "block_end", "block_start", "block_mid"),
                             any(result[b] == self.raw_sliced[k] for b in range(len(result))))
                     for k in range(len(self.raw_sliced))))
 
     def inv_1(self, ret_buff, _i):
-        return (all(any(ret_buff[b] == self.raw_sliced[k] for k in range(0, _i)) and ret_buff[b].slice_type != "literal"
+        return (all(any(ret_buff[b] == self.raw_sliced[k] for k in range(0, _i))
+                    and ret_buff[b].slice_type in ("comment", "block_end", "block_start", "block_mid") and ret_buff[b].slice_type != "literal"
                     for b in range(len(ret_buff)))
+                and all(ret_buff[b].source_idx + len(ret_buff[b].raw) <= ret_buff[c].source_idx
+                        for b in range(len(ret_buff)) for c in range(b + 1, len(ret_buff)))
+                # everything collected so far ends before the slice about to be visited
+                and all(implies(_i < len(self.raw_sliced),
+                                ret_buff[b].source_idx + len(ret_buff[b].raw) <= self.raw_sliced[_i].source_idx)
+                        for b in range(len(ret_buff)))
                 and all(implies(self.raw_sliced[k].slice_type in ("comment", "block_end", "block_start", "block_mid"),
                                 any(ret_buff[b] == self.raw_sliced[k] for b in range(len(ret_buff))))
                         for k in range(0, _i)))
